@@ -62,7 +62,7 @@ func (c *Ctx) epicGuardOK(f *ssa.Function, site *ssa.BasicBlock, vCanon string, 
 				return true
 			}
 		}
-		if cl, _ := callOf(a.X); cl != nil && cl.Call.StaticCallee() == isEpic && isEpic != nil && isItem(cl.Call.Args[0]) {
+		if cl, _ := callOf(a.X); cl != nil && calleeOf(&cl.Call) == isEpic && isEpic != nil && isItem(cl.Call.Args[0]) {
 			return true
 		}
 		return false
@@ -250,7 +250,7 @@ func ruleVD8(c *Ctx) {
 				if !okGuard {
 					// the validation may live in a private helper of the callback whose success dominates the builder call
 					for _, hc := range callsIn(cb) {
-						h := hc.Common().StaticCallee()
+						h := calleeOf(hc.Common())
 						hv, isCall := hc.(*ssa.Call)
 						if h == nil || !isCall || h.Blocks == nil || !c.InModule(h) || c.opaqueHelper(h) || h == f {
 							continue
@@ -334,7 +334,7 @@ func (c *Ctx) callbackChains(target *ssa.Function, depth int) []cbChain {
 			continue
 		}
 		for _, call := range callsIn(cb) {
-			cal := call.Common().StaticCallee()
+			cal := calleeOf(call.Common())
 			if cal == nil || !c.InModule(cal) {
 				continue
 			}
@@ -436,7 +436,7 @@ func (c *Ctx) chainLacksKey(ch cbChain, key string) (bool, string) {
 			if !del {
 				// a module constructor (newTaskFlagUpdates): the key may be removed inside it, before each return
 				if cl, isCall := v.(*ssa.Call); isCall {
-					if cal := cl.Call.StaticCallee(); cal != nil && cal.Blocks != nil && c.InModule(cal) && cal.Signature.Results().Len() == 1 {
+					if cal := calleeOf(&cl.Call); cal != nil && cal.Blocks != nil && c.InModule(cal) && cal.Signature.Results().Len() == 1 {
 						for _, r := range returnsOf(cal) {
 							work = append(work, item{returnedValue(r, 0), r, it.d + 1})
 						}
@@ -489,7 +489,7 @@ func ruleVD9(c *Ctx) {
 		// stored Path is the cleaned path returned by validateResultPath
 		pv := em.Fields["Path"]
 		pc, pi := callOf(pv)
-		okClean := pc != nil && pc.Call.StaticCallee() == vrp && pi == 0
+		okClean := pc != nil && calleeOf(&pc.Call) == vrp && pi == 0
 		c.check(okClean, fn, construct+"|clean-path-stored", pos, "Path is the cleaned path returned by validateResultPath", "the stored Path is not validateResultPath's returned (cleaned) path: the raw caller string is recorded")
 		// evidence: captureResultEvidence(repoDir, same cleaned path), same repoDir as validate
 		var ev *ssa.Call
@@ -851,7 +851,7 @@ func (c *Ctx) flowsToBuilder(v ssa.Value, bse *ssa.Function) bool {
 	for _, r := range *refs {
 		switch x := r.(type) {
 		case ssa.CallInstruction:
-			if cal := x.Common().StaticCallee(); cal != nil && c.InModule(cal) {
+			if cal := calleeOf(x.Common()); cal != nil && c.InModule(cal) {
 				if cal == bse || c.reachesWithin(cal, bse, 6) {
 					return true
 				}
@@ -898,7 +898,7 @@ func ruleVD12(c *Ctx) {
 		if len(callsNamed(p0, "(*encoding/json.Decoder).Decode")) == 0 {
 			f = nil
 			for _, call := range callsIn(p0) {
-				h := call.Common().StaticCallee()
+				h := calleeOf(call.Common())
 				cv, isCall := call.(*ssa.Call)
 				if h == nil || !isCall || !c.InModule(h) || h.Blocks == nil || len(callsNamed(h, "(*encoding/json.Decoder).Decode")) == 0 {
 					continue
@@ -989,7 +989,7 @@ func ruleVD12(c *Ctx) {
 	for _, e := range c.F.Entries {
 		var parses []ssa.CallInstruction
 		for _, call := range callsIn(e) {
-			if cal := call.Common().StaticCallee(); cal != nil && (cal.Name() == "ParseTaskInput" || cal.Name() == "ParsePlanInput") {
+			if cal := calleeOf(call.Common()); cal != nil && (cal.Name() == "ParseTaskInput" || cal.Name() == "ParsePlanInput") {
 				parses = append(parses, call)
 			}
 		}
@@ -1015,7 +1015,7 @@ func ruleVD12(c *Ctx) {
 				if !ok {
 					continue
 				}
-				cal := cv.Call.StaticCallee()
+				cal := calleeOf(&cv.Call)
 				if cal != nil && strings.HasPrefix(cal.Name(), "Validate") && len(cv.Call.Args) > 0 && input != nil && resolve(cv.Call.Args[0]) == input {
 					val = cv
 				}
@@ -1036,8 +1036,8 @@ func ruleVD12(c *Ctx) {
 			bad := ""
 			nCommit := 0
 			for _, call := range callsIn(e) {
-				cal := call.Common().StaticCallee()
-				isCommit := cal != nil && (commit[cal] || cal == c.F.LockPrim)
+				cal := calleeOf(call.Common())
+				isCommit := cal != nil && (commit[cal] || c.F.isLockFn(cal))
 				if !isCommit || !canReachInstr(pv, call) {
 					continue
 				}
@@ -1046,7 +1046,7 @@ func ruleVD12(c *Ctx) {
 					bad = fmt.Sprintf("commit %s at %s is reachable from the parse without the validation having passed", c.Name(cal), c.Pos(call.Pos()))
 				}
 			}
-			c.check(bad == "" && nCommit > 0, fn, construct, c.Pos(val.Pos()), fmt.Sprintf("parse ok and %s()==nil dominate the %d committing call(s) after the parse", val.Call.StaticCallee().Name(), nCommit), bad)
+			c.check(bad == "" && nCommit > 0, fn, construct, c.Pos(val.Pos()), fmt.Sprintf("parse ok and %s()==nil dominate the %d committing call(s) after the parse", calleeOf(&val.Call).Name(), nCommit), bad)
 		}
 	}
 }
@@ -1086,7 +1086,7 @@ func ruleVD13(c *Ctx) {
 			return false
 		}
 		for _, call := range callsIn(cb) {
-			cal := call.Common().StaticCallee()
+			cal := calleeOf(call.Common())
 			if cal == nil || !inUnit[cal] {
 				continue
 			}
@@ -1116,7 +1116,7 @@ func ruleVD13(c *Ctx) {
 	nCommit, appendCommit := 0, ""
 	for _, g := range unit {
 		for _, call := range callsIn(g) {
-			cal := call.Common().StaticCallee()
+			cal := calleeOf(call.Common())
 			if cal == nil || !commit[cal] || inUnit[cal] {
 				continue
 			}
@@ -1205,7 +1205,7 @@ func textIsInputLoadE(v ssa.Value, e env) bool {
 	v = strip(v)
 	if cl, ok := v.(*ssa.Call); ok {
 		// an accessor such as GetBody() or stringOrEmpty(input.Body): every return is the field's string or ""
-		h := cl.Call.StaticCallee()
+		h := calleeOf(&cl.Call)
 		if h == nil || h.Blocks == nil || curProg == nil || !curProg.InModule(h) {
 			return false
 		}
@@ -1277,11 +1277,11 @@ func onlyFromCallTo(v ssa.Value, fn *ssa.Function, d int) bool {
 		return true
 	case *ssa.Extract:
 		if cl, ok := x.Tuple.(*ssa.Call); ok {
-			return cl.Call.StaticCallee() == fn
+			return calleeOf(&cl.Call) == fn
 		}
 		return false
 	case *ssa.Call:
-		return x.Call.StaticCallee() == fn
+		return calleeOf(&x.Call) == fn
 	case *ssa.UnOp:
 		if x.Op == token.MUL {
 			if cell := cellOf(x.X); cell != nil {
